@@ -118,12 +118,27 @@ def run(ctx):
         ctx.broken("record driver died: " + out[-1500:])
         return
     runs = sum(1 for r in recs if r["ev"] == "Run")
+    nchk = [r for r in recs if r["ev"] == "Check"]
+    ctx.log("T record: %d events, %d runs (%d interleaved), %d Check events, max %d chunks / %d bytes retained" %
+            (len(recs), runs, sum(1 for r in recs if r["ev"] == "Run" and "mix" in r), len(nchk),
+             max([r["kept"] for r in nchk] or [0]), max([r["keptbytes"] for r in nchk] or [0])))
+    if not nchk or max(r["kept"] for r in nchk) < 2:
+        ctx.broken("record driver retained no chunks across runs (Check events missing)")
+        return
     for r in recs:
         if r["ev"] == "Input" and r["L"] > r["max"] > 0:
             ctx.nontrivial(("T", r["spec"], r["L"]))
     ctx.sample([r for r in recs if r["ev"] in ("Input", "Run", "Emit", "End")][:8])
 
     def corrupt(rs):
+        # seed-dependent: either one retained chunk reported as no longer intact at a Check, or a moved cut
+        checks = [i for i, r in enumerate(rs) if r["ev"] == "Check" and r["n"] > 1]
+        if checks and ctx.rng.random() < 0.5:
+            idx = ctx.rng.choice(checks)
+            bad = [dict(r) for r in rs]
+            bad[idx]["n"] -= 1
+            bad[idx]["bytes"] -= 1
+            return bad, idx
         # an Emit in a second-or-later run of an input with >= 2 chunks: shift the cut by one byte
         run_no, idx = 0, None
         for i, r in enumerate(rs):
